@@ -138,6 +138,8 @@ Float = ScalarType(
 def _parse_string(value: Any) -> str:
     if isinstance(value, (list, tuple)):
         raise ValueError('String cannot represent list value "%s"' % value)
+    if isinstance(value, dict):
+        raise ValueError('String cannot represent object value "%s"' % value)
     return str(value)
 
 
